@@ -143,7 +143,7 @@ func runChain(c ChainCase) *vt.Outcome {
 		msg := fmt.Sprintf("context has two distinct union types (ids %d and %d, type values %x and %x) for the same member set %s: listed in order %v and in order %v; zed.CompareTypes(%s, %s) = %d",
 			zed.TypeID(u1), zed.TypeID(u2), zed.EncodeTypeValue(u1), zed.EncodeTypeValue(u2), show(want), p1, p2, show(nfs[0]), show(nfs[1]),
 			zed.CompareTypes(mustBuild(r, mc, members[0]), mustBuild(r, mc, members[1])))
-		if vt.IsKnown(sig) {
+		if isKnown(sig) {
 			o.Known = append(o.Known, sig)
 			return o
 		}
@@ -164,7 +164,7 @@ func runChain(c ChainCase) *vt.Outcome {
 	}
 	if t1 != zed.Type(u3) {
 		sig := "C05/union-order-undefined-for-named-chains/translation-differs-from-construction"
-		if vt.IsKnown(sig) {
+		if isKnown(sig) {
 			o.Known = append(o.Known, sig)
 			return o
 		}
